@@ -124,9 +124,11 @@ def parseNat (s : Bytes) : Option Nat :=
     `big.Int.SetString(s, 10)` (base 10: no prefixes, no underscores). -/
 def parseInt (s : Bytes) : Option Int :=
   match s with
-  | 43 :: r => (parseNat r).map Int.ofNat
-  | 45 :: r => (parseNat r).map fun n => -Int.ofNat n
-  | r => (parseNat r).map Int.ofNat
+  | [] => none
+  | c :: r =>
+    if c == 43 then (parseNat r).map Int.ofNat
+    else if c == 45 then (parseNat r).map fun n => -Int.ofNat n
+    else (parseNat (c :: r)).map Int.ofNat
 
 def isE (c : UInt8) : Bool := c == 69 || c == 101
 
@@ -137,25 +139,32 @@ def splitAt1 (p : UInt8 → Bool) : Bytes → Bytes × Option Bytes
       let q := splitAt1 p r
       (c :: q.1, q.2)
 
+/-- the exponent after 'E'/'e': `strconv.ParseInt(_, 10, 32)`; no exponent part: 0. -/
+def parseExp (es : Option Bytes) : Option Int :=
+  match es with
+  | none => some 0
+  | some x =>
+    match parseInt x with
+    | none => none
+    | some v => if v < int32Min ∨ v > int32Max then none else some v
+
+/-- the part before the exponent: at most one '.', digits parsed as one integer. -/
+def ofMantissa (mant : Bytes) (e0 : Int) : Option Dec :=
+  if mant.count 46 > 1 then none else
+  let q := splitAt1 (· == 46) mant
+  let fpl := q.2.getD []
+  match parseInt (q.1 ++ fpl) with
+  | none => none
+  | some c =>
+    let e := e0 - fpl.length
+    if e < int32Min ∨ e > int32Max then none else some ⟨c, e⟩
+
 /-- `decimal.NewFromString`; `none` = error. -/
 def ofString (s : Bytes) : Option Dec :=
-  let (mant, es) := splitAt1 isE s
-  let e0 : Option Int := match es with
-    | none => some 0
-    | some x => match parseInt x with
-      | none => none
-      | some v => if v < int32Min ∨ v > int32Max then none else some v
-  match e0 with
+  let q := splitAt1 isE s
+  match parseExp q.2 with
   | none => none
-  | some e0 =>
-    if mant.count 46 > 1 then none else
-    let (ip, fp) := splitAt1 (· == 46) mant
-    let fpl := fp.getD []
-    match parseInt (ip ++ fpl) with
-    | none => none
-    | some c =>
-      let e := e0 - fpl.length
-      if e < int32Min ∨ e > int32Max then none else some ⟨c, e⟩
+  | some e0 => ofMantissa q.1 e0
 
 /-- Exact rational value. -/
 def toRat (d : Dec) : Rat := (d.coef : Rat) * (10 : Rat) ^ d.exp
